@@ -648,10 +648,22 @@ class EGraph:
                     # call_once(closure, (args,)) : _1 = env, _2.. = tuple fields
                     if l == 1:
                         return ("closure_env", inst.id)
+                    if len(args) > 1:
+                        tup = self.prov_operand(inst.parent, args[1])
+                        if isinstance(tup, tuple) and tup and tup[0] == "agg" and tup[1] == "tuple" and l - 2 < len(tup[3]):
+                            return tup[3][l - 2]      # the closure is called right here with these values: its parameter IS that value
                     return ("cl_arg", inst.id, l)
                 if l - 1 < len(args):
                     return self.prov_operand(inst.parent, args[l - 1])
             if inst.kind == "closure":
+                if inst.parent is not None and inst.call_bb is not None and inst.body["kind"] == "Closure":
+                    pt0 = inst.parent.body["blocks"][inst.call_bb]["term"]
+                    c0 = pt0.get("callee") or {}
+                    if re.search(r"ops::(FnOnce::call_once|FnMut::call_mut|Fn::call)$", c0.get("path", "")) and len(pt0.get("args", [])) > 1 and l >= 2:
+                        # `f(a, b)` on a closure-typed parameter bound at inlining: the closure runs right here with these values
+                        tup = self.prov_operand(inst.parent, pt0["args"][1])
+                        if isinstance(tup, tuple) and tup and tup[0] == "agg" and tup[1] == "tuple" and l - 2 < len(tup[3]):
+                            return tup[3][l - 2]
                 # the argument of a closure run by a single-call Option/Result combinator is the receiver's payload
                 first = 2 if inst.body["kind"] == "Closure" else 1
                 if l == first and inst.parent is not None:
